@@ -437,6 +437,7 @@ def pytest_sessionfinish(session, exitstatus):
                 )
 
             used_changes = []
+            approved_flags = set(state().flags) & categories
             for flag in Flags.all():
                 if not changes[flag]:
                     continue
@@ -492,6 +493,7 @@ def pytest_sessionfinish(session, exitstatus):
 
                 if any_changes and apply_changes(flag):
                     used_changes += changes[flag]
+                    approved_flags.add(flag)
 
             report_problems(console)
 
@@ -525,7 +527,7 @@ def pytest_sessionfinish(session, exitstatus):
 
             unused_externals = _find_external.unused_externals()
 
-            if unused_externals and state().update_flags.trim:
+            if unused_externals and "trim" in approved_flags:
                 for name in unused_externals:
                     assert state().storage
                     state().storage.remove(name)
